@@ -44,6 +44,18 @@ namespace bloch::runtime {
 
     static constexpr bool kTraceConstructors = false;
 
+    namespace {
+        // Marks the start of a new call frame in the scope stack for the duration of a call.
+        struct FrameBaseGuard {
+            size_t& slot;
+            size_t saved;
+            FrameBaseGuard(size_t& frameBase, size_t newBase) : slot(frameBase), saved(frameBase) {
+                slot = newBase;
+            }
+            ~FrameBaseGuard() { slot = saved; }
+        };
+    }  // namespace
+
     static std::pair<RuntimeField*, RuntimeClass*> findStaticFieldWithOwner(
         RuntimeClass* cls, const std::string& name) {
         RuntimeClass* cur = cls;
@@ -517,6 +529,7 @@ namespace bloch::runtime {
         m_executed = true;
         m_functions.clear();
         m_env.clear();
+        m_frameBase = 0;
         m_measurements.clear();
         m_trackedCounts.clear();
         m_echoBuffer.clear();
@@ -570,9 +583,9 @@ namespace bloch::runtime {
     }
 
     Value RuntimeEvaluator::lookup(const std::string& name) {
-        for (auto it = m_env.rbegin(); it != m_env.rend(); ++it) {
-            auto fit = it->find(name);
-            if (fit != it->end())
+        for (size_t i = m_env.size(); i-- > m_frameBase;) {
+            auto fit = m_env[i].find(name);
+            if (fit != m_env[i].end())
                 return fit->second.value;
         }
         std::shared_ptr<Object> thisObj = currentThisObject();
@@ -606,7 +619,8 @@ namespace bloch::runtime {
     }
 
     void RuntimeEvaluator::assign(const std::string& name, const Value& v) {
-        for (auto it = m_env.rbegin(); it != m_env.rend(); ++it) {
+        for (size_t i = m_env.size(); i-- > m_frameBase;) {
+            auto it = m_env.begin() + static_cast<std::ptrdiff_t>(i);
             auto fit = it->find(name);
             if (fit != it->end()) {
                 Value newVal = v;
@@ -652,9 +666,9 @@ namespace bloch::runtime {
     }
 
     std::shared_ptr<Object> RuntimeEvaluator::currentThisObject() const {
-        for (auto it = m_env.rbegin(); it != m_env.rend(); ++it) {
-            auto found = it->find("this");
-            if (found != it->end() && found->second.value.objectValue)
+        for (size_t i = m_env.size(); i-- > m_frameBase;) {
+            auto found = m_env[i].find("this");
+            if (found != m_env[i].end() && found->second.value.objectValue)
                 return found->second.value.objectValue;
         }
         return {};
@@ -1316,6 +1330,7 @@ namespace bloch::runtime {
                 m_inStaticContext = false;
                 m_inConstructor = false;
                 m_inDestructor = true;
+                FrameBaseGuard frame(m_frameBase, m_env.size());
                 beginScope();
                 Value thisVal;
                 thisVal.type = Value::Type::Object;
@@ -1381,6 +1396,7 @@ namespace bloch::runtime {
                 bool prevStatic = m_inStaticContext;
                 m_currentClassCtx = cls;
                 m_inStaticContext = false;
+                FrameBaseGuard frame(m_frameBase, m_env.size());
                 beginScope();
                 Value thisVal;
                 thisVal.type = Value::Type::Object;
@@ -1419,6 +1435,7 @@ namespace bloch::runtime {
         m_inStaticContext = false;
         m_inConstructor = true;
         m_inDestructor = false;
+        FrameBaseGuard frame(m_frameBase, m_env.size());
         beginScope();
         Value thisVal;
         thisVal.type = Value::Type::Object;
@@ -1555,6 +1572,7 @@ namespace bloch::runtime {
         m_inStaticContext = method->isStatic;
         m_inConstructor = false;
         m_inDestructor = false;
+        FrameBaseGuard frame(m_frameBase, m_env.size());
         beginScope();
         if (!method->isStatic) {
             Value thisVal;
@@ -1588,6 +1606,7 @@ namespace bloch::runtime {
 
     Value RuntimeEvaluator::call(FunctionDeclaration* fn, const std::vector<Value>& args) {
         // Bind parameters, run the body until a return is hit, then unwind.
+        FrameBaseGuard frame(m_frameBase, m_env.size());
         beginScope();
         for (size_t i = 0; i < fn->params.size() && i < args.size(); ++i) {
             m_env.back()[fn->params[i]->name] = {args[i], false, true};
